@@ -4,11 +4,21 @@ from vlib.conform import conform
 from vlib.core import Infra
 from bhelp import conform_all, chunk, log_of
 
+# symbolic size_t values beyond every string (SimpleStr.tla HugeNames; harness/simplestr.cpp num_of knows their values)
+HUGE = ["SIZE_MAX", "SIZE_MAX-1", "SIZE_MAX-2", "SIZE_MAX-3", "SIZE_MAX/2+1", "SIZE_MAX/2", "2^32", "2^32-1", "2^32+1", "2^31", "2^31+1"]
+
+
+def tla_set(names):
+    return "{" + ", ".join('"%s"' % n for n in names) + "}"
+
+
 LATTICE = {
     "quick": dict(NObj=3, A2="{97, 98}", L2=2, A1="{97, 10, 1, 127, 128, 255, 92}", L1=2, AC="{97, 65, 193}", LC=2,
-                  AN="{32, 45, 43, 49, 57, 97}", LN=3, PMax=4, BitPos="{0, 7, 63}", GA="{97, 98}", GL=2),
+                  AN="{32, 45, 43, 49, 57, 97}", LN=3, PMax=4, BitPos="{0, 7, 63}", GA="{97, 98}", GL=2,
+                  HG=tla_set(["SIZE_MAX", "SIZE_MAX-1", "SIZE_MAX-2", "SIZE_MAX/2+1", "2^32", "2^31"]), GH=tla_set(["SIZE_MAX", "SIZE_MAX-1"])),
     "thorough": dict(NObj=3, A2="{97, 98}", L2=3, A1="{97, 10, 1, 127, 128, 255, 92}", L1=3, AC="{97, 65, 193}", LC=3,
-                     AN="{32, 45, 43, 49, 57, 97}", LN=4, PMax=5, BitPos="{0, 7, 8, 31, 63}", GA="{97, 98}", GL=2),
+                     AN="{32, 45, 43, 49, 57, 97}", LN=4, PMax=5, BitPos="{0, 7, 8, 31, 63}", GA="{97, 98}", GL=2,
+                     HG=tla_set(HUGE), GH=tla_set(["SIZE_MAX", "SIZE_MAX-2", "2^32"])),
 }
 CONST = """CONSTANTS
   NObj = %(NObj)s
@@ -21,6 +31,8 @@ CONST = """CONSTANTS
   AN = %(AN)s
   LN = %(LN)s
   PMax = %(PMax)s
+  HG = %(HG)s
+  GH = %(GH)s
   BitPos = %(BitPos)s
   GA = %(GA)s
   GL = %(GL)s
@@ -42,9 +54,12 @@ def enc(b):
 
 
 def row_to_line(r):
+    # a number operand travels as the number, or as the name of the symbolic size (hg[k]) when there is one
+    hg = list(r.get("hg") or []) + ["", "", ""]
+    nn = [hg[k] if hg[k] else r.get("n%d" % (k + 1), 0) for k in range(3)]
     if r["op"] == "f":
-        return ["f", r["fn"], enc(r["s1"]), enc(r["s2"]), enc(r["s3"]), r["n1"], r["n2"], r["n3"]]
-    return ["o", r["fn"], r["i"], r["j"], r["k"], enc(r["s1"]), enc(r["s2"]), r["n1"], r["n2"]]
+        return ["f", r["fn"], enc(r["s1"]), enc(r["s2"]), enc(r["s3"]), nn[0], nn[1], nn[2]]
+    return ["o", r["fn"], r["i"], r["j"], r["k"], enc(r["s1"]), enc(r["s2"]), nn[0], nn[1]]
 
 
 def key_of(kind, ex, idx, observed):
@@ -75,7 +90,11 @@ def rnd_string(rng, maxlen):
 
 
 def F(fn, s1=(), s2=(), s3=(), n1=0, n2=0, n3=0):
-    return {"op": "f", "fn": fn, "s1": list(s1), "s2": list(s2), "s3": list(s3), "n1": n1, "n2": n2, "n3": n3}
+    """n1..n3: a number, or the name of a symbolic size (HUGE)."""
+    nn = [n1, n2, n3]
+    return {"op": "f", "fn": fn, "s1": list(s1), "s2": list(s2), "s3": list(s3),
+            "n1": 0 if isinstance(n1, str) else n1, "n2": 0 if isinstance(n2, str) else n2, "n3": 0 if isinstance(n3, str) else n3,
+            "hg": [x if isinstance(x, str) else "" for x in nn]}
 
 
 def random_pure(rng, n):
@@ -103,22 +122,24 @@ def random_pure(rng, n):
             pos = rng.choice([0, 1, L - 1, L, L + 1, L + 7, 1000]) if L else rng.choice([0, 1, 2, 9])
             pos = max(0, pos)
             fn = rng.choice(["substr1", "substr2", "findfrom", "copytobuf", "strncpy", "strncmp", "at", "repeat"])
+            hugepos = rng.choice(HUGE) if rng.random() < 0.25 else None       # a position / length beyond every string
             ch = rng.choice(a) if a and rng.random() < 0.7 else rng.randrange(1, 256)
             if fn == "substr1":
-                rows.append(F(fn, a, n1=pos))
+                rows.append(F(fn, a, n1=hugepos or pos))
             elif fn == "substr2":
-                rows.append(F(fn, a, n1=pos, n2=rng.choice([0, 1, L, L + 1, 2 ** 31 - 1, rng.randint(0, L + 2)])))
+                amount = rng.choice([0, 1, L, L + 1, 2 ** 31 - 1, rng.randint(0, L + 2)] + [rng.choice(HUGE)] * 3)
+                rows.append(F(fn, a, n1=pos if (hugepos is None or rng.random() < 0.5) else hugepos, n2=amount))
             elif fn == "findfrom":
-                rows.append(F(fn, a, n1=pos, n2=ch))
+                rows.append(F(fn, a, n1=hugepos or pos, n2=ch))
             elif fn == "copytobuf":
-                rows.append(F(fn, a, n1=min(pos, 400), n2=1 if rng.random() < 0.1 else 0))
+                rows.append(F(fn, a, n1=hugepos or min(pos, 400), n2=1 if rng.random() < 0.1 else 0))
             elif fn == "strncpy":
                 rows.append(F(fn, a, n1=min(pos, 400)))
             elif fn == "strncmp":
                 b = list(a);
                 if b and rng.random() < 0.6:
                     b[rng.randrange(len(b))] = rng.randrange(1, 256)
-                rows.append(F(fn, a, b, n1=pos))
+                rows.append(F(fn, a, b, n1=hugepos or pos))
             elif fn == "at":
                 rows.append(F(fn, a, n1=min(pos, L)))
             else:
@@ -169,12 +190,14 @@ def random_pure(rng, n):
         else:
             V = sorted(set(rng.randrange(64) for _ in range(rng.randint(0, 12))))
             M = sorted(set(rng.randrange(64) for _ in range(rng.randint(0, 40))))
-            rows.append(F("maskedbits", V, M, n3=rng.choice([1, 2, 3, 4, 8, 9, 16])))
+            rows.append(F("maskedbits", V, M, n3=rng.choice([1, 2, 3, 4, 8, 9, 16, rng.choice(HUGE)])))
     return rows
 
 
 def O(fn, i=0, j=0, k=0, s1=(), s2=(), n1=0, n2=0):
-    return {"op": "o", "fn": fn, "i": i, "j": j, "k": k, "s1": list(s1), "s2": list(s2), "n1": n1, "n2": n2}
+    return {"op": "o", "fn": fn, "i": i, "j": j, "k": k, "s1": list(s1), "s2": list(s2),
+            "n1": 0 if isinstance(n1, str) else n1, "n2": 0 if isinstance(n2, str) else n2,
+            "hg": [x if isinstance(x, str) else "" for x in (n1, n2)]}
 
 
 def random_objects(rng, n):
@@ -219,7 +242,8 @@ def random_objects(rng, n):
                 bound[i] = bound[j] = max(bound[i], bound[j])
         elif r < 0.86:
             L = bound[j]
-            ex.append(O("sub", i, j, n1=rng.choice([0, 1, 2, L, L + 1, max(0, L - 1)]), n2=rng.choice([0, 1, 3, L, 2 ** 31 - 1]))); bound[i] = bound[j]
+            ex.append(O("sub", i, j, n1=rng.choice([0, 1, 2, L, L + 1, max(0, L - 1), rng.choice(HUGE)]),
+                        n2=rng.choice([0, 1, 3, L, 2 ** 31 - 1, rng.choice(HUGE), rng.choice(HUGE)]))); bound[i] = bound[j]
         elif r < 0.9:
             ex.append(O("lower", i, j)); bound[i] = bound[j]
         elif r < 0.96:
@@ -318,5 +342,7 @@ def run(ctx):
                      "replace = non-overlapping left-to-right; printable() of bytes >= 0x80: kept or \\xHH both accepted",
                      "StrNCpy: bytes after the copied terminator may be untouched or zero; AtoI/AtoU on numbers of <= 9 digits",
                      "numeric formatters on values that fit 32-bit TLC integers; %s formats only for formatted construction",
+                     "sizes beyond every string (symbolic, HugeNames) are passed to subString(2), findFrom, StrNCmp, copyToBuffer (real buffer = string + terminator), "
+                     "the repeat constructor (empty string only) and StringFromMaskedBits; not to StrNCpy / MemCmp / at(), whose contract makes n bytes accessible",
                      "memory safety is observed by ASan/UBSan on exact-size heap operands on the executed calls, not proved"],
         extra={"executions": nexec})
